@@ -1190,6 +1190,8 @@ impl Check for C04 {
     }
 
     fn run(&self, ctx: &Ctx, rep: &mut Reporter) {
+        // recorded first so that a capped run still carries a sample
+        rep.sample(|| json!({"variant": "pkidx", "ops": ["INS1", "UPDALL", "DEL1"], "maint": [{"pos": 2, "op": "close_reopen"}], "cfg": {"wal": true}, "meaning": "CREATE t + index; INSERT 1; close()+open; UPDATE all; DELETE 1; observe — vs. the same without close()+open"}));
         for c in ["maint_checkpoint", "maint_pragma_wal_checkpoint", "maint_reopen", "maint_close_reopen", "maint_auto_checkpoint", "reopens", "checkpoints_that_moved_frames", "runs_wal_on", "runs_wal_off", "twin_index_plans_for_a_lookup"] {
             rep.expect_nonzero(c);
         }
@@ -1202,6 +1204,10 @@ impl Check for C04 {
             for (i, c) in list.iter().enumerate() {
                 if !ctx.mine(i as u64) {
                     continue;
+                }
+                if ctx.expired() {
+                    rep.capped("deadline in explicit case list");
+                    break;
                 }
                 if let Some(key) = RunKey::from_json(c) {
                     check_case(&mut eng, rep, &key, "cases", true);
@@ -1237,7 +1243,6 @@ impl Check for C04 {
         rep.count("rowid_calibration_runs", calib_runs);
         rep.count("database_executions", runs);
         rep.count("executions_spent_shrinking", shrink_runs);
-        rep.sample(|| json!({"variant": "pkidx", "ops": ["INS1", "UPDALL", "DEL1"], "maint": [{"pos": 2, "op": "close_reopen"}], "cfg": {"wal": true}, "meaning": "CREATE t + index; INSERT 1; close()+open; UPDATE all; DELETE 1; observe — vs. the same without close()+open"}));
     }
 
     fn replay(&self, ctx: &Ctx, case: &Value, rep: &mut Reporter) {
